@@ -398,7 +398,7 @@ func atomMatches(fn *Func, a *Atom, g guard) bool {
 				var rhs ast.Expr
 				switch s := asn.(type) {
 				case *ast.AssignStmt:
-					if len(s.Rhs) == 1 && len(s.Lhs) == 2 {
+					if len(s.Rhs) == 1 && len(s.Lhs) >= 2 && ast.Unparen(s.Lhs[len(s.Lhs)-1]) != nil && isIdentObj(info, s.Lhs[len(s.Lhs)-1], o) {
 						rhs = s.Rhs[0]
 					}
 				case *ast.ValueSpec:
@@ -781,4 +781,9 @@ func checkDisjunction(p *Prog, fn *Func, em ast.Node, want []string) string {
 		msg += "; unexpected alternative(s): " + strings.Join(extra, ", ")
 	}
 	return msg
+}
+
+func isIdentObj(info *types.Info, e ast.Expr, o types.Object) bool {
+	id, ok := ast.Unparen(e).(*ast.Ident)
+	return ok && info.ObjectOf(id) == o
 }
